@@ -1,0 +1,526 @@
+//go:build verif
+
+// Contracts for deductive verification (read by /verif/govc; never compiled
+// without the "verif" build tag). The //@ directives below are the machine-
+// checked specifications of the real functions of this package; the Go
+// functions in this file are the pure specification functions they refer to.
+
+package simdjson
+
+import "math"
+
+var _ = math.MaxInt64
+
+// ---- helper vocabulary for contract expressions (pure; total) ----
+
+func old[T any](x T) T { return x }
+
+func implies(a, b bool) bool { return !a || b }
+
+func iff(a, b bool) bool { return a == b }
+
+func ite[T any](c bool, a, b T) T {
+	if c {
+		return a
+	}
+	return b
+}
+
+func forall(lo, hi int, f func(int) bool) bool {
+	for j := lo; j < hi; j++ {
+		if !f(j) {
+			return false
+		}
+	}
+	return true
+}
+
+func exists(lo, hi int, f func(int) bool) bool {
+	for j := lo; j < hi; j++ {
+		if f(j) {
+			return true
+		}
+	}
+	return false
+}
+
+// sameSlice: two slice headers denote the same window of the same backing array.
+func sameSlice[T any](a, b []T) bool {
+	return len(a) == len(b) && (len(a) == 0 || &a[0] == &b[0])
+}
+
+// elems names the backing array of a slice in assigns clauses.
+func elems[T any](s []T) []T { return s }
+
+// ---- S2: tape model ----
+
+func tagOf(v uint64) Tag    { return Tag(v >> 56) }
+func payOf(v uint64) uint64 { return v & JSONVALUEMASK }
+
+// nopRun: every entry in [p,q) is a NOP whose skip count lands exactly on q,
+// and q is the end of the tape or a live (non-NOP) entry.
+func nopRun(T []uint64, p, q int) bool {
+	return 0 <= p && p <= q && q <= len(T) &&
+		forall(p, q, func(j int) bool { return tagOf(T[j]) == TagNop && payOf(T[j]) == uint64(q-j) }) &&
+		implies(q < len(T), tagOf(T[q]) != TagNop)
+}
+
+// iterOK is the representation invariant every public Iter operation maintains
+// (offsets never negative; bounded so that machine arithmetic cannot wrap).
+func iterOK(i *Iter) bool {
+	return 0 <= i.off && 0 <= i.addNext && i.off <= 1<<57 && i.addNext <= 1<<57 && i.off+i.addNext <= 1<<57
+}
+
+func sameFloat(a, b float64) bool { return math.Float64bits(a) == math.Float64bits(b) }
+
+// float64 values whose truncation toward zero is representable in the target type
+func fitsInt64(v float64) bool  { return v >= -0x1p63 && v < 0x1p63 }
+func fitsUint64(v float64) bool { return v > -1 && v < 0x1p64 }
+
+func truncToInt64(v float64) int64   { return int64(v) }
+func truncToUint64(v float64) uint64 { return uint64(v) }
+
+// ---------------------------------------------------------------------------
+// Walkers: NOP-run lemma (C14), plain step (C02), safety and termination on arbitrary tapes (C05, C19)
+
+//@ func (*Iter).AdvanceInto
+//@   props C14 C02
+//@   ghost q int
+//@   requires iterOK(i)
+//@   requires nopRun(i.tape.Tape, i.off+i.addNext, q)
+//@   ensures lands: implies(q < len(i.tape.Tape) && result != TagEnd, i.off == q+1 && i.t == tagOf(i.tape.Tape[q]) && i.cur == payOf(i.tape.Tape[q]) && result == i.t)
+//@   ensures end: implies(q == len(i.tape.Tape), result == TagEnd && i.t == TagEnd)
+//@   ensures inv: iterOK(i)
+//@   invariant 0 old(i.off)+old(i.addNext) <= i.off && i.off <= q
+//@   decreases 0 q - i.off
+//@   safe [C05]
+
+//@ func (*Iter).AdvanceInto variant anytape
+//@   props C05 C19
+//@   requires iterOK(i)
+//@   ensures inv: iterOK(i)
+//@   invariant 0 0 <= i.off && i.off <= 1<<57
+//@   decreases 0 len(i.tape.Tape) - i.off
+//@   safe
+
+//@ func (*Iter).Advance
+//@   props C14 C02
+//@   ghost q int
+//@   requires iterOK(i)
+//@   requires nopRun(i.tape.Tape, i.off+i.addNext, q)
+//@   ensures lands: implies(q < len(i.tape.Tape) && i.t != TagEnd, i.off == q+1 && i.t == tagOf(i.tape.Tape[q]) && i.cur == payOf(i.tape.Tape[q]) && result == TagToType[i.t])
+//@   ensures end: implies(q == len(i.tape.Tape), result == TypeNone && i.t == TagEnd)
+//@   ensures inv: iterOK(i)
+//@   invariant 0 old(i.off)+old(i.addNext) <= i.off && i.off <= q
+//@   decreases 0 q - i.off
+//@   safe [C05]
+
+//@ func (*Iter).Advance variant anytape
+//@   props C05 C19
+//@   requires iterOK(i)
+//@   ensures inv: iterOK(i)
+//@   invariant 0 0 <= i.off && i.off <= 1<<57
+//@   decreases 0 len(i.tape.Tape) - i.off
+//@   safe
+
+//@ func (*Iter).AdvanceIter
+//@   props C14 C02
+//@   ghost q int
+//@   requires iterOK(i)
+//@   requires nopRun(i.tape.Tape, i.off+i.addNext, q)
+//@   ensures lands: implies(q < len(old(i.tape.Tape)) && result1 == nil && result0 != TypeNone, dst.off == q+1 && dst.t == tagOf(old(i.tape.Tape)[q]) && dst.cur == payOf(old(i.tape.Tape)[q]) && result0 == TagToType[dst.t])
+//@   ensures end: implies(q == len(old(i.tape.Tape)), result0 == TypeNone && result1 == nil)
+//@   ensures window: implies(result1 == nil && result0 != TypeNone, len(dst.tape.Tape) == i.off + i.addNext && len(dst.tape.Tape) <= len(old(i.tape.Tape)))
+//@   ensures inv: iterOK(i) && implies(result1 == nil && result0 != TypeNone, iterOK(dst))
+//@   invariant 0 old(i.off)+old(i.addNext) <= i.off && i.off <= q
+//@   decreases 0 q - i.off
+//@   nonnil dst
+//@   safe [C05]
+
+//@ func (*Iter).AdvanceIter variant anytape
+//@   props C05 C19
+//@   requires iterOK(i)
+//@   ensures inv: implies(result1 == nil, iterOK(i)) && implies(result1 == nil && result0 != TypeNone, iterOK(dst))
+//@   invariant 0 0 <= i.off && i.off <= 1<<57
+//@   decreases 0 len(i.tape.Tape) - i.off
+//@   nonnil dst
+//@   safe
+
+//@ func (*Iter).AdvanceIter variant anytape-alias
+//@   props C05 C19
+//@   requires iterOK(i)
+//@   ensures inv: implies(result1 == nil, iterOK(i))
+//@   invariant 0 0 <= i.off && i.off <= 1<<57
+//@   decreases 0 len(i.tape.Tape) - i.off
+//@   alias dst i
+//@   safe
+
+//@ func (*Iter).PeekNext
+//@   props C14 C02
+//@   ghost q int
+//@   requires iterOK(i)
+//@   requires nopRun(i.tape.Tape, i.off+i.addNext, q)
+//@   ensures lands: implies(q < len(i.tape.Tape), result == TagToType[tagOf(i.tape.Tape[q])])
+//@   ensures end: implies(q == len(i.tape.Tape), result == TypeNone)
+//@   invariant 0 old(i.off)+old(i.addNext) <= off && off <= q
+//@   decreases 0 q - off
+//@   safe [C05]
+
+//@ func (*Iter).PeekNext variant anytape
+//@   props C05 C19
+//@   requires iterOK(i)
+//@   invariant 0 0 <= off && off <= 1<<57
+//@   decreases 0 len(i.tape.Tape) - off
+//@   safe
+
+//@ func (*Iter).PeekNextTag
+//@   props C14 C02
+//@   ghost q int
+//@   requires iterOK(i)
+//@   requires nopRun(i.tape.Tape, i.off+i.addNext, q)
+//@   ensures lands: implies(q < len(i.tape.Tape), result == tagOf(i.tape.Tape[q]))
+//@   ensures end: implies(q == len(i.tape.Tape), result == TagEnd)
+//@   invariant 0 old(i.off)+old(i.addNext) <= off && off <= q
+//@   decreases 0 q - off
+//@   safe [C05]
+
+//@ func (*Iter).PeekNextTag variant anytape
+//@   props C05 C19
+//@   requires iterOK(i)
+//@   invariant 0 0 <= off && off <= 1<<57
+//@   decreases 0 len(i.tape.Tape) - off
+//@   safe
+
+// ---------------------------------------------------------------------------
+// Accessors (C12 numeric conversion exactness, C02/C03 value exposure, C05 safety)
+
+//@ func (*ParsedJson).stringByteAt
+//@   props C05 C19
+//@   summary
+//@   requires pj.Strings != nil
+//@   ensures len: implies(result1 == nil, len(result0) == int(length))
+//@   safe
+
+//@ func (*Iter).Int variant float
+//@   props C12
+//@   requires iterOK(i) && i.t == TagFloat && i.off < len(i.tape.Tape)
+//@   ensures ok: iff(result1 == nil, fitsInt64(math.Float64frombits(i.tape.Tape[i.off])))
+//@   ensures val: implies(result1 == nil, result0 == truncToInt64(math.Float64frombits(i.tape.Tape[i.off])))
+//@   safe
+
+//@ func (*Iter).Int variant ints
+//@   props C12 C03
+//@   requires iterOK(i) && i.off < len(i.tape.Tape) && i.t != TagFloat
+//@   ensures int: implies(i.t == TagInteger, result1 == nil && result0 == int64(i.tape.Tape[i.off]))
+//@   ensures uint: implies(i.t == TagUint, iff(result1 == nil, i.tape.Tape[i.off] <= math.MaxInt64) && implies(result1 == nil, uint64(result0) == i.tape.Tape[i.off]))
+//@   ensures other: implies(i.t != TagInteger && i.t != TagUint && i.t != TagFloat, result1 != nil)
+//@   safe
+
+//@ func (*Iter).Int variant anytape
+//@   props C05 C19
+//@   requires iterOK(i)
+//@   safe
+
+//@ func (*Iter).Uint variant float
+//@   props C12
+//@   requires iterOK(i) && i.t == TagFloat && i.off < len(i.tape.Tape)
+//@   ensures ok: iff(result1 == nil, fitsUint64(math.Float64frombits(i.tape.Tape[i.off])))
+//@   ensures val: implies(result1 == nil, result0 == truncToUint64(math.Float64frombits(i.tape.Tape[i.off])))
+//@   safe
+
+//@ func (*Iter).Uint variant ints
+//@   props C12 C03
+//@   requires iterOK(i) && i.off < len(i.tape.Tape) && i.t != TagFloat
+//@   ensures uint: implies(i.t == TagUint, result1 == nil && result0 == i.tape.Tape[i.off])
+//@   ensures int: implies(i.t == TagInteger, iff(result1 == nil, int64(i.tape.Tape[i.off]) >= 0) && implies(result1 == nil, result0 == i.tape.Tape[i.off]))
+//@   ensures other: implies(i.t != TagInteger && i.t != TagUint && i.t != TagFloat, result1 != nil)
+//@   safe
+
+//@ func (*Iter).Uint variant anytape
+//@   props C05 C19
+//@   requires iterOK(i)
+//@   safe
+
+//@ func (*Iter).Float
+//@   props C12 C03 C02
+//@   requires iterOK(i) && i.off < len(i.tape.Tape)
+//@   ensures float: implies(i.t == TagFloat, result1 == nil && sameFloat(result0, math.Float64frombits(i.tape.Tape[i.off])))
+//@   ensures int: implies(i.t == TagInteger, result1 == nil && result0 == float64(int64(i.tape.Tape[i.off])))
+//@   ensures uint: implies(i.t == TagUint, result1 == nil && result0 == float64(i.tape.Tape[i.off]))
+//@   ensures other: implies(i.t != TagInteger && i.t != TagUint && i.t != TagFloat, result1 != nil)
+//@   safe [C05]
+
+//@ func (*Iter).Float variant anytape
+//@   props C05 C19
+//@   requires iterOK(i)
+//@   safe
+
+//@ func (*Iter).FloatFlags
+//@   props C03
+//@   requires iterOK(i) && i.off < len(i.tape.Tape)
+//@   ensures float: implies(i.t == TagFloat, result2 == nil && sameFloat(result0, math.Float64frombits(i.tape.Tape[i.off])) && uint64(result1) == i.cur)
+//@   ensures ints: implies(i.t == TagInteger || i.t == TagUint, result2 == nil && result1 == 0)
+//@   safe [C05]
+
+//@ func (*Iter).FloatFlags variant anytape
+//@   props C05 C19
+//@   requires iterOK(i)
+//@   safe
+
+//@ func (*Iter).Bool
+//@   props C02
+//@   ensures t: implies(i.t == TagBoolTrue, result1 == nil && result0)
+//@   ensures f: implies(i.t == TagBoolFalse, result1 == nil && !result0)
+//@   ensures other: implies(i.t != TagBoolTrue && i.t != TagBoolFalse, result1 != nil)
+//@   safe [C05]
+
+//@ func (*Iter).StringBytes
+//@   props C05 C19
+//@   requires iterOK(i) && i.tape.Strings != nil
+//@   safe
+
+//@ func (*Iter).String
+//@   props C05 C19
+//@   requires iterOK(i) && i.tape.Strings != nil
+//@   safe
+
+//@ func (*Iter).Type
+//@   props C05 C19
+//@   requires iterOK(i)
+//@   safe
+
+//@ func (*Iter).Root
+//@   props C05 C19
+//@   requires iterOK(i)
+//@   safe
+
+//@ func (*Iter).Root variant dstnil
+//@   props C05 C19
+//@   requires iterOK(i) && dst == nil
+//@   safe
+
+//@ func (*Iter).Object
+//@   props C05 C19
+//@   requires iterOK(i)
+//@   ensures window: implies(result1 == nil, len(result0.tape.Tape) == int(i.cur) && result0.off == i.off && i.off <= len(result0.tape.Tape) && len(result0.tape.Tape) <= len(i.tape.Tape))
+//@   safe
+
+//@ func (*Iter).Array
+//@   props C05 C19
+//@   requires iterOK(i)
+//@   ensures window: implies(result1 == nil, len(result0.tape.Tape) == int(i.cur) && result0.off == i.off && len(result0.tape.Tape) <= len(i.tape.Tape))
+//@   safe
+
+// ---------------------------------------------------------------------------
+// In-place replacement (C13): exact frame, new encoding, type gate
+
+func isNumOrString(t Tag) bool {
+	return t == TagFloat || t == TagInteger || t == TagUint || t == TagString
+}
+func isBoolOrNull(t Tag) bool { return t == TagBoolTrue || t == TagBoolFalse || t == TagNull }
+
+// positioned: the iterator stands on an entry: tag word at off-1, and for two-word entries the value word at off
+func positioned(i *Iter) bool {
+	return iterOK(i) && 1 <= i.off && i.off <= len(i.tape.Tape) && implies(isNumOrString(i.t), i.off < len(i.tape.Tape))
+}
+
+//@ func (*Iter).SetFloat
+//@   props C13
+//@   requires positioned(i)
+//@   ensures ok: implies(isNumOrString(old(i.t)), result == nil && i.tape.Tape[i.off-1] == uint64(TagFloat)<<56 && sameFloat(math.Float64frombits(i.tape.Tape[i.off]), v) && i.t == TagFloat && i.cur == 0)
+//@   ensures frame: forall(0, len(i.tape.Tape), func(j int) bool { return implies(!(isNumOrString(old(i.t)) && (j == i.off-1 || j == i.off)), i.tape.Tape[j] == old(i.tape.Tape)[j]) })
+//@   ensures gate: implies(!isNumOrString(old(i.t)), result != nil && i.t == old(i.t) && i.cur == old(i.cur))
+//@   ensures pos: i.off == old(i.off) && i.addNext == old(i.addNext) && len(i.tape.Tape) == len(old(i.tape.Tape))
+//@   safe
+
+//@ func (*Iter).SetInt
+//@   props C13
+//@   requires positioned(i)
+//@   ensures ok: implies(isNumOrString(old(i.t)), result == nil && i.tape.Tape[i.off-1] == uint64(TagInteger)<<56 && i.tape.Tape[i.off] == uint64(v) && i.t == TagInteger)
+//@   ensures frame: forall(0, len(i.tape.Tape), func(j int) bool { return implies(!(isNumOrString(old(i.t)) && (j == i.off-1 || j == i.off)), i.tape.Tape[j] == old(i.tape.Tape)[j]) })
+//@   ensures gate: implies(!isNumOrString(old(i.t)), result != nil && i.t == old(i.t) && i.cur == old(i.cur))
+//@   ensures pos: i.off == old(i.off) && i.addNext == old(i.addNext) && len(i.tape.Tape) == len(old(i.tape.Tape))
+//@   safe
+
+//@ func (*Iter).SetUInt
+//@   props C13
+//@   requires positioned(i)
+//@   ensures ok: implies(isNumOrString(old(i.t)), result == nil && i.tape.Tape[i.off-1] == uint64(TagUint)<<56 && i.tape.Tape[i.off] == v && i.t == TagUint)
+//@   ensures frame: forall(0, len(i.tape.Tape), func(j int) bool { return implies(!(isNumOrString(old(i.t)) && (j == i.off-1 || j == i.off)), i.tape.Tape[j] == old(i.tape.Tape)[j]) })
+//@   ensures gate: implies(!isNumOrString(old(i.t)), result != nil && i.t == old(i.t) && i.cur == old(i.cur))
+//@   ensures pos: i.off == old(i.off) && i.addNext == old(i.addNext) && len(i.tape.Tape) == len(old(i.tape.Tape))
+//@   safe
+
+//@ func (*Iter).SetBool
+//@   props C13
+//@   requires positioned(i)
+//@   ensures ok: implies(isBoolOrNull(old(i.t)), result == nil && i.cur == 0 && implies(v, i.t == TagBoolTrue && i.tape.Tape[i.off-1] == uint64(TagBoolTrue)<<56) && implies(!v, i.t == TagBoolFalse && i.tape.Tape[i.off-1] == uint64(TagBoolFalse)<<56))
+//@   ensures frame: forall(0, len(i.tape.Tape), func(j int) bool { return implies(!(isBoolOrNull(old(i.t)) && j == i.off-1), i.tape.Tape[j] == old(i.tape.Tape)[j]) })
+//@   ensures gate: implies(!isBoolOrNull(old(i.t)), result != nil && i.t == old(i.t) && i.cur == old(i.cur))
+//@   ensures pos: i.off == old(i.off) && i.addNext == old(i.addNext) && len(i.tape.Tape) == len(old(i.tape.Tape))
+//@   safe
+
+//@ func (*Iter).SetStringBytes
+//@   props C13
+//@   requires positioned(i) && i.tape.Strings != nil && len(i.tape.Strings.B) < 1<<46
+//@   ensures ok: implies(isNumOrString(old(i.t)), result == nil && tagOf(i.tape.Tape[i.off-1]) == TagString && payOf(i.tape.Tape[i.off-1]) == STRINGBUFBIT|uint64(len(old(i.tape.Strings.B))) && i.tape.Tape[i.off] == uint64(len(v)) && i.t == TagString && len(i.tape.Strings.B) == len(old(i.tape.Strings.B))+len(v))
+//@   ensures curfield: implies(isNumOrString(old(i.t)), i.cur&JSONVALUEMASK == payOf(i.tape.Tape[i.off-1]))
+//@   ensures appended: implies(isNumOrString(old(i.t)), forall(0, len(v), func(k int) bool { return i.tape.Strings.B[len(old(i.tape.Strings.B))+k] == v[k] }))
+//@   ensures oldstrings: forall(0, len(old(i.tape.Strings.B)), func(k int) bool { return i.tape.Strings.B[k] == old(i.tape.Strings.B)[k] })
+//@   ensures frame: forall(0, len(i.tape.Tape), func(j int) bool { return implies(!(isNumOrString(old(i.t)) && (j == i.off-1 || j == i.off)), i.tape.Tape[j] == old(i.tape.Tape)[j]) })
+//@   ensures gate: implies(!isNumOrString(old(i.t)), result != nil && i.t == old(i.t) && i.cur == old(i.cur) && len(i.tape.Strings.B) == len(old(i.tape.Strings.B)))
+//@   ensures pos: i.off == old(i.off) && i.addNext == old(i.addNext) && len(i.tape.Tape) == len(old(i.tape.Tape))
+//@   safe
+
+func isContainerTag(t Tag) bool { return t == TagObjectStart || t == TagArrayStart }
+
+// SetNull per its documentation: Bool, String, (Unsigned) Integer, Float, Objects and Arrays — nothing else.
+func nullable(t Tag) bool { return isBoolOrNull(t) || isNumOrString(t) || isContainerTag(t) }
+
+//@ func (*Iter).SetNull
+//@   props C13 C14
+//@   requires positioned(i)
+//@   requires implies(!isBoolOrNull(i.t) && !isNumOrString(i.t), uint64(i.off) <= i.cur && i.cur <= uint64(len(i.tape.Tape)))
+//@   ensures ok: implies(nullable(old(i.t)), result == nil && i.tape.Tape[i.off-1] == uint64(TagNull)<<56 && i.t == TagNull && i.cur == 0)
+//@   ensures two: implies(isNumOrString(old(i.t)), i.tape.Tape[i.off] == uint64(TagNop)<<56|1)
+//@   ensures fill: implies(isContainerTag(old(i.t)), forall(i.off, int(old(i.cur)), func(j int) bool { return i.tape.Tape[j] == uint64(TagNop)<<56|(old(i.cur)-uint64(j)) }))
+//@   ensures frame1: implies(isBoolOrNull(old(i.t)), forall(0, len(i.tape.Tape), func(j int) bool { return implies(j != i.off-1, i.tape.Tape[j] == old(i.tape.Tape)[j]) }))
+//@   ensures frame2: implies(isNumOrString(old(i.t)), forall(0, len(i.tape.Tape), func(j int) bool { return implies(j != i.off-1 && j != i.off, i.tape.Tape[j] == old(i.tape.Tape)[j]) }))
+//@   ensures frameC: implies(isContainerTag(old(i.t)), forall(0, len(i.tape.Tape), func(j int) bool { return implies(j < i.off-1 || j >= int(old(i.cur)), i.tape.Tape[j] == old(i.tape.Tape)[j]) }))
+//@   ensures gate: implies(!nullable(old(i.t)), result != nil && i.t == old(i.t) && i.cur == old(i.cur) && forall(0, len(i.tape.Tape), func(j int) bool { return i.tape.Tape[j] == old(i.tape.Tape)[j] }))
+//@   ensures pos: i.off == old(i.off) && len(i.tape.Tape) == len(old(i.tape.Tape))
+//@   invariant 0 i.off <= j && j <= int(old(i.cur)) && i.cur == old(i.cur) && i.off == old(i.off)
+//@   invariant 0 filled: forall(i.off, j, func(k int) bool { return i.tape.Tape[k] == uint64(TagNop)<<56|(old(i.cur)-uint64(k)) })
+//@   invariant 0 framed: forall(0, len(i.tape.Tape), func(k int) bool { return implies(k < i.off-1 || k >= j, implies(k != i.off-1, i.tape.Tape[k] == old(i.tape.Tape)[k])) })
+//@   invariant 0 head: i.tape.Tape[i.off-1] == uint64(TagNull)<<56 && len(i.tape.Tape) == len(old(i.tape.Tape))
+//@   decreases 0 int(i.cur) - j
+//@   safe
+
+// ---------------------------------------------------------------------------
+// Ghost-free step summaries of the walkers (used modularly at call sites)
+
+// stepAddNext is what calcNext(false) computes for an entry with tag t, payload cur, read position off.
+func stepAddNext(t Tag, cur uint64, off int) int {
+	if t == TagInteger || t == TagUint || t == TagFloat || t == TagString {
+		return 1
+	}
+	if t == TagRoot || t == TagObjectStart || t == TagArrayStart {
+		return int(cur) - off
+	}
+	return 0
+}
+
+// extents: every container/root opener inside the window points forward to a position inside the window
+// (established by the parser; Deserialize checks it against the whole tape only).
+func wfExtents(T []uint64) bool {
+	return forall(0, len(T), func(p int) bool {
+		return implies(tagOf(T[p]) == TagObjectStart || tagOf(T[p]) == TagArrayStart || tagOf(T[p]) == TagRoot,
+			uint64(p) < payOf(T[p]) && payOf(T[p]) <= uint64(len(T))) &&
+			implies(isNumOrString(tagOf(T[p])), p+1 < len(T))
+	})
+}
+
+//@ func (*Iter).Advance variant step
+//@   props C02 C12 C14 C05
+//@   summary
+//@   requires iterOK(i)
+//@   assigns i.off, i.addNext, i.cur, i.t
+//@   ensures live: implies(result != TypeNone, 1 <= i.off && i.off <= len(i.tape.Tape) && i.t == tagOf(i.tape.Tape[i.off-1]) && i.cur == payOf(i.tape.Tape[i.off-1]) && i.t != TagNop && i.addNext == stepAddNext(i.t, i.cur, i.off) && i.addNext >= 0)
+//@   ensures progress: implies(result != TypeNone, i.off > old(i.off)+old(i.addNext))
+//@   ensures typ: implies(i.off <= len(i.tape.Tape) && 1 <= i.off && result != TypeNone, result == TagToType[i.t])
+//@   ensures none: i.addNext >= 0 && i.off >= old(i.off)+old(i.addNext) && len(i.tape.Tape) == len(old(i.tape.Tape))
+//@   ensures stuck: implies(i.off <= old(i.off)+old(i.addNext), i.t == TagEnd && result == TypeNone)
+//@   ensures inv: iterOK(i)
+//@   invariant 0 0 <= i.off && i.off <= 1<<57 && old(i.off)+old(i.addNext) <= i.off
+//@   decreases 0 len(i.tape.Tape) - i.off
+//@   safe
+
+//@ func (*Array).DeleteElems
+//@   props C14 C05
+//@   requires 0 <= a.off && a.off <= len(a.tape.Tape) && wfExtents(a.tape.Tape)
+//@   ensures onlynops: forall(0, len(a.tape.Tape), func(j int) bool { return a.tape.Tape[j] == old(a.tape.Tape)[j] || (tagOf(a.tape.Tape[j]) == TagNop && j >= a.off) })
+//@   invariant 0 iterOK(&i) && sameSlice(i.tape.Tape, a.tape.Tape) && a.off <= i.off+i.addNext
+//@   invariant 0 wf: wfExtents(a.tape.Tape)
+//@   invariant 0 onlynops: forall(0, len(a.tape.Tape), func(j int) bool { return a.tape.Tape[j] == old(a.tape.Tape)[j] || (tagOf(a.tape.Tape[j]) == TagNop && j >= a.off && j < i.off+i.addNext) })
+//@   decreases 0 len(a.tape.Tape) - i.off - i.addNext
+//@   invariant 1 startO <= off && off <= end && end <= len(a.tape.Tape) && skip == uint64(end-off) && sameSlice(i.tape.Tape, a.tape.Tape)
+//@   invariant 1 wf: wfExtents(a.tape.Tape)
+//@   invariant 1 filled: forall(startO, off, func(k int) bool { return a.tape.Tape[k] == uint64(TagNop)<<56|uint64(end-k) })
+//@   invariant 1 onlynops: forall(0, len(a.tape.Tape), func(j int) bool { return a.tape.Tape[j] == old(a.tape.Tape)[j] || (tagOf(a.tape.Tape[j]) == TagNop && j >= a.off && j < end) })
+//@   decreases 1 end - off
+//@   safe
+
+// ---------------------------------------------------------------------------
+// Object / Array readers
+
+//@ func (*Object).NextElementBytes variant anytape
+//@   props C05 C19
+//@   summary
+//@   requires 0 <= o.off && o.off <= 1<<57 && o.tape.Strings != nil
+//@   assigns o.off, *dst
+//@   ensures progress: implies(result2 == nil && result1 != TypeNone, o.off > old(o.off))
+//@   ensures inv: 0 <= o.off && o.off <= 1<<57 && len(o.tape.Tape) == len(old(o.tape.Tape))
+//@   ensures dstok: implies(result2 == nil && result1 != TypeNone, iterOK(dst) && dst.tape.Strings != nil)
+//@   decreases rec len(o.tape.Tape) - o.off
+//@   nonnil dst
+//@   safe
+
+//@ func (*Object).FindKey variant anytape
+//@   props C05 C19
+//@   requires 0 <= o.off && o.off <= 1<<57 && o.tape.Strings != nil
+//@   invariant 0 iterOK(&tmp) && tmp.tape.Strings != nil
+//@   decreases 0 len(tmp.tape.Tape) - tmp.off - tmp.addNext
+//@   safe
+
+//@ func (*Object).ForEach variant anytape
+//@   props C05 C19
+//@   requires 0 <= o.off && o.off <= 1<<57 && o.tape.Strings != nil
+//@   invariant 0 iterOK(&tmp) && tmp.tape.Strings != nil
+//@   decreases 0 len(tmp.tape.Tape) - tmp.off - tmp.addNext
+//@   safe
+
+//@ func (*Object).FindPath variant anytape
+//@   props C05 C19
+//@   requires 0 <= o.off && o.off <= 1<<57 && o.tape.Strings != nil
+//@   invariant 0 iterOK(&tmp) && tmp.tape.Strings != nil
+//@   decreases 0 2*(len(tmp.tape.Tape) - tmp.off - tmp.addNext) + ite(tmp.t == TagEnd, 0, 1)
+//@   safe
+
+//@ func (*Array).AsFloat variant anytape
+//@   props C05 C19
+//@   requires 0 <= a.off && a.off <= 1<<57
+//@   invariant 0 0 <= a.off && a.off <= 1<<57
+//@   decreases 0 len(a.tape.Tape) - a.off
+//@   safe
+
+//@ func (*Array).AsInteger variant anytape
+//@   props C05 C19
+//@   requires 0 <= a.off && a.off <= 1<<57
+//@   invariant 0 0 <= a.off && a.off <= 1<<57
+//@   decreases 0 len(a.tape.Tape) - a.off
+//@   safe
+
+//@ func (*Array).AsUint64 variant anytape
+//@   props C05 C19
+//@   requires 0 <= a.off && a.off <= 1<<57
+//@   invariant 0 0 <= a.off && a.off <= 1<<57
+//@   decreases 0 len(a.tape.Tape) - a.off
+//@   safe
+
+// ---------------------------------------------------------------------------
+// Deserialize: no panic on arbitrary bytes (C19). Declared section sizes are assumed allocatable
+// (the property's own caveat), stated as an assumption on what ReadUvarint returns.
+
+//@ extern encoding/binary.ReadUvarint ensures r0 <= 1<<31
+
+//@ func (*Serializer).decBlock
+//@   props C19
+//@   summary
+//@   assigns elems(dst)
+//@   nonnil br wg dstErr
+//@   safe
+
+//@ func (*Serializer).Deserialize
+//@   props C19
+//@   invariant 0 0 <= off && off <= len(dst.Tape) && 0 <= nSkips && nSkips <= len(dst.Tape)
+//@   safe
